@@ -1446,3 +1446,45 @@ def contains(sym, pred):
         if pred(x):
             return True
     return False
+
+
+def eval_bool_sym(sym, facts):
+    """Truth of a symbolic boolean term under the decisions of a path ({atom text: value}); None if not determined."""
+    if isinstance(sym, ast.Constant):
+        return bool(sym.value)
+    if isinstance(sym, ast.UnaryOp) and isinstance(sym.op, ast.Not):
+        v = eval_bool_sym(sym.operand, facts)
+        return None if v is None else (not v)
+    if isinstance(sym, ast.BoolOp):
+        vals = [eval_bool_sym(v, facts) for v in sym.values]
+        if isinstance(sym.op, ast.And):
+            if any(v is False for v in vals):
+                return False
+            return True if all(v is True for v in vals) else None
+        if any(v is True for v in vals):
+            return True
+        return False if all(v is False for v in vals) else None
+    if isinstance(sym, ast.Compare) and len(sym.ops) == 1:
+        op = sym.ops[0]
+        l, r = sym.left, sym.comparators[0]
+        neg = False
+        if isinstance(op, ast.IsNot):
+            op, neg = ast.Is(), True
+        elif isinstance(op, ast.NotEq):
+            op, neg = ast.Eq(), True
+        elif isinstance(op, ast.NotIn):
+            op, neg = ast.In(), True
+        if isinstance(op, ast.Eq) and norm(r) < norm(l):
+            l, r = r, l
+        t = norm(ast.Compare(left=l, ops=[op], comparators=[r]))
+        if t in facts:
+            return facts[t] != neg
+        if isinstance(op, ast.Is) and isinstance(r, ast.Constant) and r.value is None and norm(l) in facts and facts[norm(l)] is True:
+            return neg          # truthy => not None
+        return None
+    t = norm(sym)
+    if t in facts:
+        return facts[t]
+    if (t + ' is None') in facts and facts[t + ' is None'] is True:
+        return False
+    return None
